@@ -130,6 +130,9 @@ func (s *fsm12) prepare(ctx context.Context, conn Conn) (State, error) {
 		return StateErrored, err
 	}
 
+	pkts = verifRewriteFlight(VerifFlightInfo{
+		IsClient: s.state.IsClient, Flight: s.currentFlight.String(), State: s.state, Cache: s.cache,
+	}, pkts)
 	s.flights = pkts
 	epoch := s.cfg.InitialEpoch
 	nextEpoch := epoch
